@@ -207,12 +207,19 @@ def run_distance(case, out):
         out.label("integer_dtype_coordinates")
         for col in ("x", "y", "z", "shift_x", "shift_y", "shift_z"):
             df[col] = df[col].astype("int64")
-    ok, m = call(out, "Motl", lambda: cryomotl.Motl(df.copy()))
+    table = df.copy()
+    ok, m = call(out, "Motl", lambda: cryomotl.Motl(table))
     if not ok:
         return
+    # two live lists built from the same table: cleaning one is not a request to clean the other
+    ok, twin = call(out, "Motl", lambda: cryomotl.Motl(table))
+    if not ok:
+        return
+    twin_before = twin.df.copy()
     ok, _ = call(out, "clean_by_distance", lambda: m.clean_by_distance(d, f, metric_id=case["metric"], keep_greater=case["keep_greater"]))
     if not ok:
         return
+    out.check(twin.df.equals(twin_before), "distance:cleaning_one_list_changed_another_list_built_from_the_same_table", f"{len(twin.df)} of {len(twin_before)} rows")
     res = m.df
     if not out.check(sorted(res.columns) == sorted(C) and len(res.columns) == 20, "distance:columns", list(res.columns)):
         return
